@@ -126,13 +126,18 @@ def intText : Int → Str
 /-- value of a non-empty run of ASCII digits -/
 def digitsVal (ds : Str) : Nat := Nat.ofDigitChars 10 ds 0
 
+/-- optional leading `-` -/
+def signSplit (v : Str) : Bool × Str :=
+  match v with
+  | '-' :: r => (true, r)
+  | _ => (false, v)
+
 /-- `_plain_int(value)`: strip, `-?\d+` (re.ASCII) fullmatch, `int()`; ValueError otherwise.
 (CPython's 4300-digit limit of `int()` raises the same ValueError and is not modelled.) -/
 def plainInt (value : Str) : Except String Int :=
-  let v := strip value
-  let (neg, ds) := match v with | '-' :: r => (true, r) | _ => (false, v)
-  if !ds.isEmpty && ds.all isPlainDigit then
-    .ok (if neg then - (digitsVal ds : Int) else (digitsVal ds : Int))
+  let sd := signSplit (strip value)
+  if !sd.2.isEmpty && sd.2.all isPlainDigit then
+    .ok (if sd.1 then - (digitsVal sd.2 : Int) else (digitsVal sd.2 : Int))
   else .error "ValueError"
 
 def isDecimalCh (c : Char) : Bool := c.toNat < 256 && tbl Gen.Http.decimalTbl c.toNat
